@@ -8,7 +8,8 @@ Local Open Scope N_scope.
 
 Definition ex_cfg : config :=
   {| cfg_local := 1; cfg_enr := {| e_id := 1; e_seq := 1; e_ip4 := None; e_ip6 := None |};
-     cfg_retries := 1; cfg_timeout := 1000; cfg_listen := []; cfg_capacity := 10%nat; cfg_grid := 0;
+     cfg_retries := 1; cfg_timeout := 1000; cfg_listen := []; cfg_capacity := 10%nat;
+     cfg_session_ttl := 1000000; cfg_clock := 0; cfg_grid := 0;
      fix_d1 := true; fix_d2a := true; fix_d2b := true; fix_d6 := true |}.
 Example ex_cfg_fixed : fixed_cfg ex_cfg.
 Proof. repeat split. Qed.
@@ -57,11 +58,15 @@ Proof. exists (OEvent (HEstablished enr7 100 true)). split; [left; reflexivity |
 Definition h_session : hstate := fst (run ex_cfg init_state [ev_unknown; ev_whoareyou; ev_handshake; ev_response]).
 Example h_session_has_session :
   alist_get (7, 100) (sessions h_session) =
-  Some {| s_enc := mk_key 3 1 5 7 1 true; s_dec := kd7; s_old := None; s_await := None; s_counter := 1 |}.
+  Some {| s_enc := mk_key 3 1 5 7 1 true; s_dec := kd7; s_old := None; s_await := None; s_counter := 1; s_used := 13 |}.
 Proof. vm_compute. reflexivity. Qed.
+(* the only change of the state: the access stamps the session with the time of the step *)
 Example request_step :
   step ex_cfg h_session (EvInbound 100 pkt_request) 14 nod =
-  (h_session, [OEvent (HRequest (7, 100) 10 0)]).
+  (set_sessions h_session
+     [((7, 100), {| s_enc := mk_key 3 1 5 7 1 true; s_dec := kd7; s_old := None; s_await := None;
+                    s_counter := 1; s_used := 14 |})],
+   [OEvent (HRequest (7, 100) 10 0)]).
 Proof. vm_compute. reflexivity. Qed.
 (* the same ciphertext with another nonce, other authenticated data, or from another address *)
 Example request_step_tampered_nonce :
@@ -91,7 +96,7 @@ Proof. vm_compute. repeat split; reflexivity. Qed.
 (* an outgoing handshake: a request to node 8 at address 200 goes out as a random packet, node 8
    answers WHOAREYOU, we send the handshake; a second WHOAREYOU (echoing the handshake packet's nonce)
    fails the request *)
-Definition ct8 : contact := {| c_id := 8; c_addr := 200; c_enr := Some enr8 |}.
+Definition ct8 : contact := {| c_id := 8; c_addr := 200; c_enr := Some enr8; c_ed := false |}.
 Definition ev_app_request := (EvRequest ct8 20 0, 10, dk [(4, 4, 60, 0)]).
 Definition ev_who1 := (EvInbound 200 (PWho (4, 4) 12 0 6), 11, dk [(5, 5, 61, 9)]).
 Definition ev_who2 := (EvInbound 200 (PWho (5, 5) 13 0 8), 12, dk [(6, 6, 62, 10)]).
